@@ -226,6 +226,11 @@ impl Memfs {
 
         // Skip creation of root as `new` will take care of that
         if path == PathBuf::from(Component::RootDir.to_string()?) {
+            if entry.is_symlink() {
+                return Err(PathError::is_not_symlink(path).into());
+            } else if !entry.is_dir() {
+                return Err(PathError::is_not_file(path).into());
+            }
             return Ok(path);
         }
 
